@@ -232,6 +232,9 @@ def main(argv=None):
   candidates = [r for r in all_results if r['verdict'] == 'sat' and (r['expect'] == 'unsat' or r.get('probe'))]
   twins_bad = [r for r in all_results if r['expect'] == 'sat' and r['verdict'] != 'sat']
   unknown = [r for r in all_results if r['verdict'] == 'unknown' and r['expect'] == 'unsat']
+  for r in all_results:
+    if (r.get('cross') or {}).get('verdict') == 'sat':
+      harness_errors.append('solver disagreement on %s/%s: z3 unsat, cvc5 sat' % (r['case'], r['query']))
   for r in twins_bad:
     harness_errors.append('twin %s/%s expected sat, got %s' % (r['case'], r['query'], r['verdict']))
 
@@ -397,6 +400,12 @@ def write_evidence(mod, prop, tier, seed, cases, results, functions, metas, know
           queries_by_kind_verdict=by,
           query_families=fam,
           solver='z3 %s' % z3.get_version_string(),
+          second_solver=dict(solver='cvc5 (python wheel)', note='queries z3 answered unsat re-asked via SMT-LIB2 text under a per-worker time budget; '
+                             'disagreement = harness error; unknown/timeout = no second opinion',
+                             agree=len([x for x in results if (x.get('cross') or {}).get('verdict') == 'unsat']),
+                             disagree=len([x for x in results if (x.get('cross') or {}).get('verdict') == 'sat']),
+                             no_opinion=len([x for x in results if 'cross' in x and x['cross'].get('verdict') not in ('sat', 'unsat')]),
+                             time_s=round(sum((x.get('cross') or {}).get('s', 0) for x in results), 2)),
           solver_time_s=round(sum(r['solve_s'] for r in results), 2),
           stubs_used=stubs,
           graph_ops_interpreted=ops,
@@ -416,6 +425,11 @@ def write_evidence(mod, prop, tier, seed, cases, results, functions, metas, know
   os.makedirs(os.path.join(ROOT, 'evidence'), exist_ok=True)
   with open(os.path.join(ROOT, 'evidence', '%s.json' % prop), 'w') as f:
     json.dump(ev, f, indent=1, default=str)
+  if tier == 'thorough':
+    # the latest run of either tier is evidence/<id>.json; the latest thorough run is kept next to it as well
+    os.makedirs(os.path.join(ROOT, 'evidence', 'thorough'), exist_ok=True)
+    with open(os.path.join(ROOT, 'evidence', 'thorough', '%s.json' % prop), 'w') as f:
+      json.dump(ev, f, indent=1, default=str)
 
 
 if __name__ == '__main__':
